@@ -208,7 +208,7 @@ def confirm(v, mode):
     return (not ok) or (not flags_ok), '%s | with flags: %s' % (out, out_flags)
 
 
-def validate(prog, rng, n, mode):
+def validate(prog, rng, n, mode, rep=None, cfg=None):
     cases = []
     for i in range(n):
         L = rng.randint(1, 10)
@@ -218,6 +218,12 @@ def validate(prog, rng, n, mode):
     mism = []
     S.DIGIT_BOUND[0] = 30
     for (k, x, sc, N), nat in zip(cases, outs):
+        if rep is not None:
+            pv = {'kind': 'probe', 'detail': 'native-probe', 'task': {'kind': 'fixed' if k == 'fixed' else 'exp', 'L': len(str(abs(x))), 'scale': sc, 'N': N, 'upper': k == 'E', 'cfg': cfg or {}}, 'model': {'n': abs(x), 'neg': x < 0}}
+            bad, out = confirm(pv, mode)
+            if bad:
+                H.probe_violation(rep, PROP, 'native {:.%d%s} of %d@%d prints %s' % (N, '' if k == 'fixed' else k, x, sc, out), pv['task'], pv['model'], out)
+                continue
         m = E.Machine(prog, (), [], E.Stats(), loop_bound=6000)
         try:
             f, r = fmt_call(m, {'fixed': 'Display', 'e': 'LowerExp', 'E': 'UpperExp'}[k], x, sc, N, {})
@@ -262,7 +268,7 @@ def main(tier):
                        'oracle is the textbook rounding (C06 shows with_scale_round / with_precision_round equal it)']
     rep.outside = ['more than D digits', 'std pad_integral itself']
     sys.stderr.write('[C16] %d tasks\n' % len(tasks))
-    rep.validated, rep.validation_mismatches = validate(prog, rng, 300 if tier == 'quick' else 3000, mode)
+    rep.validated, rep.validation_mismatches = validate(prog, rng, 300 if tier == 'quick' else 3000, mode, rep, cfg)
     results = H.run_parallel(tasks, worker, progress=500)
     rep.add(results)
     for r in results:
